@@ -80,13 +80,25 @@ Definition addr_elem_match (s : str) (a : N) : bool :=
   end.
 Definition addr_match (s : str) (a : N) : bool := match s with [] => true | _ => addr_elem_match s a end.
 
-(** hash:ip: the printed address is an element.  hash:net: the address is inside some element without
-    nomatch and inside no nomatch element (DESIGN.md section 6: nomatch takes precedence). *)
+(** the prefix length of a set element: a bare address is a /32 *)
+Definition elem_len (s : str) : N := match parse_cidr s with Some (_, l) => l | None => 32 end.
+(** the largest prefix length among the elements that contain [a] (0 when none does) *)
+Definition best_len (es : list (str * bool)) (a : N) : N :=
+  fold_right (fun e m => if addr_elem_match (fst e) a then N.max (elem_len (fst e)) m else m) 0 es.
+
+(** hash:ip: the printed address is an element.  hash:net: the kernel's rule (ip_set_hash_net): the prefix
+    lengths present in the set are tried from the most specific to the least and the FIRST element that
+    contains the address decides - a plain element matches, an element carrying nomatch does not.  So: among
+    the elements containing [a], those of the largest prefix length [best_len es a] decide; the set matches
+    iff one of them has no nomatch flag and none of them has it (a real set cannot hold the same net with
+    both flags; the model is conservative there).  A nomatch element does NOT hide a more specific plain
+    element inside it.  Three linear passes over the elements. *)
 Definition elems_match (ty : settype) (es : list (str * bool)) (a : N) : bool :=
   match ty with
   | HashIP => existsb (fun e => str_eqb (fst e) (print_ipv4 a)) es
-  | HashNet => existsb (fun e => negb (snd e) && addr_elem_match (fst e) a) es &&
-               negb (existsb (fun e => snd e && addr_elem_match (fst e) a) es)
+  | HashNet => let m := best_len es a in
+               existsb (fun e => negb (snd e) && addr_elem_match (fst e) a && (elem_len (fst e) =? m)) es &&
+               negb (existsb (fun e => snd e && addr_elem_match (fst e) a && (elem_len (fst e) =? m)) es)
   | OtherSet _ => false
   end.
 (** a missing set never matches *)
